@@ -312,16 +312,6 @@ func hostile(p plan, n int, port, tport int, rng *rand.Rand, hs *hostileStats) {
 			return
 		}
 		hs.hold(v.c)
-		if p.Val >= 3 {
-			// the victim has asked for a lot and reads nothing: writes to it are blocked when the kick arrives
-			for i := 0; i < 400; i++ {
-				v.id++
-				if _, err := v.c.Write(sim.NewTx(sim.TGetMsgs, v.id).Encode()); err != nil {
-					break
-				}
-			}
-			time.Sleep(300 * time.Millisecond)
-		}
 		o, err := loginTCP(net.IPv4(127, 100, byte(n>>8), byte(n)), port, "op", "op", fmt.Sprintf("kicker-%d", n))
 		if err != nil {
 			atomic.AddInt64(&hs.failedDial, 1)
@@ -720,6 +710,9 @@ func runParent(args []string) error {
 		var wg sync.WaitGroup
 		for i := off; i < end; i++ {
 			n++
+			if lo, hi := debugRange(); i < lo || i >= hi {
+				continue // VERIF_CONTAIN_RANGE=lo:hi (debugging aid): only these plans are fired, numbering unchanged
+			}
 			wg.Add(1)
 			go func(p plan, n int) {
 				defer wg.Done()
@@ -936,4 +929,12 @@ func childCPUTicks(pid int) int64 {
 	fmt.Sscan(f[11], &u)
 	fmt.Sscan(f[12], &sy)
 	return u + sy
+}
+
+func debugRange() (int, int) {
+	lo, hi := 0, 1<<30
+	if v := os.Getenv("VERIF_CONTAIN_RANGE"); v != "" {
+		fmt.Sscanf(v, "%d:%d", &lo, &hi)
+	}
+	return lo, hi
 }
